@@ -588,6 +588,7 @@ theorem facts_required_flags (f : Flags) :
     (f.r && f.w && f.n) = f.has (need "NeoToken.unregisterCandidate") ∧
     (f.r && f.w && f.n) = f.has (need "OracleContract.request") ∧
     (f.r && f.w) = f.has (need "Notary.lockDepositUntil") ∧
+    (f.r && f.w) = f.has (need "NeoToken.setGasPerBlock") ∧
     (f.r && f.w && f.c && f.n) = f.has (need "Notary.withdraw") ∧
     f.mut = decide (f.toNat &&& ExecFacts.wrapMask ≠ 0) := by
   obtain ⟨r, w, c, n⟩ := f
